@@ -87,6 +87,9 @@ pub enum Step {
 pub struct Scenario {
     pub def_id: String,
     pub source: String,
+    /// how the command line is spelled: 0 `in.rs --output out.rs ..`, 1 options first, 2 `-o out.rs`, 3 `--output=out.rs`,
+    /// 4 absolute paths, 5 output in a subdirectory (`sub/out.rs`)
+    pub arg_style: u8,
     pub steps: Vec<Step>,
 }
 
@@ -150,12 +153,13 @@ impl Step {
 
 impl Scenario {
     fn to_json(&self) -> Value {
-        json!({"definition_id": self.def_id, "enum_source": self.source, "steps": self.steps.iter().map(|s| s.to_json()).collect::<Vec<_>>()})
+        json!({"definition_id": self.def_id, "enum_source": self.source, "arg_style": self.arg_style, "steps": self.steps.iter().map(|s| s.to_json()).collect::<Vec<_>>()})
     }
     fn from_json(v: &Value) -> Option<Scenario> {
         Some(Scenario {
             def_id: v.get("definition_id")?.as_str()?.to_string(),
             source: v.get("enum_source")?.as_str()?.to_string(),
+            arg_style: v.get("arg_style").and_then(|a| a.as_u64()).unwrap_or(0) as u8,
             steps: v.get("steps")?.as_array()?.iter().map(Step::from_json).collect::<Option<Vec<_>>>()?,
         })
     }
@@ -422,9 +426,30 @@ fn exec(world: &World, sc: &Scenario, run_tag: &str) -> Outcome {
     Outcome { stats, violation: v }
 }
 
+/// The command line of one invocation in the scenario's spelling. `output`: None = stdout mode.
+fn cli_args(style: u8, dir: &Path, output: bool, check: bool, fmt: bool) -> Vec<String> {
+    let abs = |name: &str| dir.join(name).to_string_lossy().into_owned();
+    let input = if style == 4 { abs("in.rs") } else { "in.rs".to_string() };
+    let out = match style { 4 => abs("out.rs"), 5 => "sub/out.rs".to_string(), _ => "out.rs".to_string() };
+    let mut opts: Vec<String> = Vec::new();
+    if output {
+        match style {
+            2 => { opts.push("-o".into()); opts.push(out); }
+            3 => opts.push(format!("--output={out}")),
+            _ => { opts.push("--output".into()); opts.push(out); }
+        }
+    }
+    if check { opts.push("--check".into()); }
+    if fmt { opts.push("--format".into()); }
+    let mut v = Vec::new();
+    if style == 1 { v.extend(opts); v.push(input); } else { v.push(input); v.extend(opts); }
+    v
+}
+
 fn exec_in(world: &World, sc: &Scenario, dir: &Path, stats: &mut Stats) -> Option<Violation> {
     let inp = dir.join("in.rs");
-    let outp = dir.join("out.rs");
+    let outp = if sc.arg_style == 5 { let _ = std::fs::create_dir_all(dir.join("sub")); dir.join("sub").join("out.rs") } else { dir.join("out.rs") };
+    let style = sc.arg_style;
     let mut d = sc.source.clone();
     std::fs::write(&inp, &d).expect("write in.rs");
     let mut dirty = false; // a Mutate or a hard fault happened since the last successful write
@@ -525,12 +550,13 @@ fn exec_in(world: &World, sc: &Scenario, dir: &Path, stats: &mut Stats) -> Optio
             Step::Print { .. } | Step::Write { .. } | Step::Check { .. } if input_broken.is_some() => {
                 // K6: with an input that cannot be read or parsed there is no "that output": nothing may report success,
                 // and a check still must not touch the file
-                let (args, plan, is_check): (Vec<&str>, &Plan, bool) = match step {
-                    Step::Print { fmt, plan } => (if *fmt { vec!["in.rs", "--format"] } else { vec!["in.rs"] }, plan, false),
-                    Step::Write { fmt, plan } => (if *fmt { vec!["in.rs", "--output", "out.rs", "--format"] } else { vec!["in.rs", "--output", "out.rs"] }, plan, false),
-                    Step::Check { fmt, plan } => (if *fmt { vec!["in.rs", "--output", "out.rs", "--check", "--format"] } else { vec!["in.rs", "--output", "out.rs", "--check"] }, plan, true),
+                let (args, plan, is_check): (Vec<String>, &Plan, bool) = match step {
+                    Step::Print { fmt, plan } => (cli_args(style, dir, false, false, *fmt), plan, false),
+                    Step::Write { fmt, plan } => (cli_args(style, dir, true, false, *fmt), plan, false),
+                    Step::Check { fmt, plan } => (cli_args(style, dir, true, true, *fmt), plan, true),
                     _ => unreachable!(),
                 };
+                let args: Vec<&str> = args.iter().map(|a| a.as_str()).collect();
                 let before = FileState::read(&outp);
                 let inv = world.invoke(dir, &args, plan);
                 stats.invocations += 1;
@@ -548,8 +574,8 @@ fn exec_in(world: &World, sc: &Scenario, dir: &Path, stats: &mut Stats) -> Optio
             Step::Print { fmt, plan } => {
                 let Some(expected) = world.expected_output(&d) else { fail!("K5-fails", stepno, "logos-cli exits with an error on this enum without any fault injected") };
                 if let Some((o, w)) = world.content_verdict(&d) { fail!(o, stepno, "{}", w); }
-                let mut args = vec!["in.rs"];
-                if *fmt { args.push("--format"); }
+                let args = cli_args(style, dir, false, false, *fmt);
+                let args: Vec<&str> = args.iter().map(|a| a.as_str()).collect();
                 let inv = world.invoke(dir, &args, plan);
                 stats.invocations += 1;
                 stats.hit("op_print");
@@ -571,8 +597,8 @@ fn exec_in(world: &World, sc: &Scenario, dir: &Path, stats: &mut Stats) -> Optio
             Step::Write { fmt, plan } => {
                 let Some(expected) = world.expected_output(&d) else { fail!("K5-fails", stepno, "logos-cli exits with an error on this enum without any fault injected") };
                 if let Some((o, w)) = world.content_verdict(&d) { fail!(o, stepno, "{}", w); }
-                let mut args = vec!["in.rs", "--output", "out.rs"];
-                if *fmt { args.push("--format"); }
+                let args = cli_args(style, dir, true, false, *fmt);
+                let args: Vec<&str> = args.iter().map(|a| a.as_str()).collect();
                 let expected = if *fmt { pretty::pretty(&expected) } else { expected };
                 let before = FileState::read(&outp);
                 let inv = world.invoke(dir, &args, plan);
@@ -602,8 +628,8 @@ fn exec_in(world: &World, sc: &Scenario, dir: &Path, stats: &mut Stats) -> Optio
                 let Some(expected) = world.expected_output(&d) else { fail!("K5-fails", stepno, "logos-cli exits with an error on this enum without any fault injected") };
                 if let Some((o, w)) = world.content_verdict(&d) { fail!(o, stepno, "{}", w); }
                 let before = FileState::read(&outp);
-                let mut args = vec!["in.rs", "--output", "out.rs", "--check"];
-                if *fmt { args.push("--format"); }
+                let args = cli_args(style, dir, true, true, *fmt);
+                let args: Vec<&str> = args.iter().map(|a| a.as_str()).collect();
                 let expected = if *fmt { pretty::pretty(&expected) } else { expected };
                 let inv = world.invoke(dir, &args, plan);
                 stats.invocations += 1;
@@ -747,7 +773,8 @@ fn gen_scenario(rng: &mut Rng, defs: &[Definition], index: u64, faults: bool) ->
             }),
         });
     }
-    Scenario { def_id: base.id.clone(), source, steps }
+    let arg_style = if faults { match rng.below(10) { 0 => 1, 1 => 2, 2 => 3, 3 => 4, 4 => 5, _ => 0 } } else { 0 };
+    Scenario { def_id: base.id.clone(), source, arg_style, steps }
 }
 
 fn signature(prop: &str, sc: &Scenario, v: &Violation) -> String {
